@@ -849,21 +849,30 @@ def replay_case(path, findings):
 
 # ----------------------------------------------------------------------------- one property
 ASSUMPTIONS = [
-    "carrier grammar Model: imports*=Import elems*=Elem; Def: 'def' name=ID; Use: 'use' ref=[Def:QName] "
-    "(RREL variant ref=[Def:QName|+m:elems]); file texts follow the line layout of LoaderRepo!LineLens "
-    "(checked by the renderer)",
+    "carrier grammar Model: imports*=Import elems*=Elem; Def: 'def' name=ID; Use: 'use' ref=[Def:QName]; "
+    "UseList: 'refs' refs+=[Def:QName][','] (RREL variant [Def:QName|+m:elems]); file texts follow the line "
+    "layout of LoaderRepo!LineLens (checked by the renderer)",
+    "two languages = two metamodels built from the same grammar text (so that elements of one are valid "
+    "targets for the other), registered with register_language and file patterns *.?a / *.?b; files are "
+    "dispatched by metamodel_for_file; each metamodel has its own declared parameters and its own, a shared "
+    "or no global repository",
     "file opens are counted by replacing `open` in the namespaces of textx.metamodel and textx.model",
     "model identity is observed through labels file@load attached to every model object the harness sees "
-    "(a second object for the same file in one load gets a different label)",
+    "(a second object for the same file in one load gets a different label); a model without file name is ~@load",
     "failing processors are harness callables raising on elements named bado / badm; a reference named pp "
     "is postponed for ever by a user-level provider wrapped around the provider under test (not with RREL)",
+    "parameter values are rendering: std (1, 'v', 0), none (None) and falsy (0, '', False); a model must "
+    "expose every given name with exactly the given value",
     "fragment: at most one injected fault per scenario; a duplicate definition only as that fault and only "
-    "for a name defined in one file; with RREL every file has a reference (models are connected to the "
-    "repositories per reference there); model_from_str without file name only for models without imports under "
-    "ImportURI providers; imported files exist; the glob pattern matches at least one file",
+    "for a name defined in one model; with RREL every file has a reference (models are connected to the "
+    "repositories per reference there); model_from_str without file name only with GlobalRepo providers or "
+    "for models without imports; imported files exist; the glob pattern matches at least one file",
+    "models without file name that earlier loads left in a global repository are not reported (whether they "
+    "stay is not stated anywhere); the one of the current load is",
     "where the documents do not decide, the module allows every choice: order of globbed files, which of "
     "several loaded models defining a name is the target, which of several offending references is reported, "
-    "order of object processors across models",
+    "order of object processors across models, whether a failed load leaves the entry it added for a model "
+    "that is cached in another language's repository",
 ]
 
 
